@@ -6,7 +6,9 @@ From FS Require Import Sx Model.Path Model.Stat.
 Import ListNotations.
 Open Scope bool_scope.
 
-(* entries the two functions look at: neither directory nor symlink *)
+(* entries the two functions look at: neither directory nor symlink — i.e. regular files AND
+   FIFOs, devices, sockets (hardlinks.go: `fi.IsDir() || fi.Mode()&os.ModeSymlink != 0` passes
+   through; mkstat assigns Linkname to every non-directory with Nlink > 1) *)
 Definition hl_plain (s : stat) : bool :=
   negb (mode_is_dir (st_mode s)) && negb (mode_is_symlink (st_mode s)).
 
